@@ -35,9 +35,6 @@ Fixpoint classes (j : judge) (es : list event) : list cls :=
 Lemma ex_echo_classes : classes (init_judge gg) h_echo = [CEcho; CEcho; CEcho; CPeer; CPeer].
 Proof. vm_compute. reflexivity. Qed.
 
-Lemma ex_echo_flag_stable : forallb flag_stable_ev h_echo = true.
-Proof. vm_compute. reflexivity. Qed.
-
 Lemma ex_echo_prop : eprop_code gg h_echo (etrace (init_topo gg) h_echo) = 0.
 Proof. vm_compute. reflexivity. Qed.
 
@@ -89,10 +86,13 @@ Lemma ex_handler_panics :
   eout (erun gg [EReq ([], Add C_under_D)]) (EInf ([], Update C_under_D C)) = 2.
 Proof. vm_compute. reflexivity. Qed.
 
-(* OPEN FINDING (findings/C15-unchecked-flag-drop.md): q5 is admitted below q3 under
-   allow-force-update although the children's mins (6+6) exceed q3's min (10); the update that
-   only removes the label is admitted UNCHECKED (no checked field differs); once it reaches the
-   record (the replica's own informer echo) the record is no longer a well-formed tree *)
+(* REPAIRED FINDING (findings/C15-unchecked-flag-drop.md): q5 is admitted below q3 under
+   allow-force-update although the children's mins (6+6) exceed q3's min (10). Before the repair
+   the early return of ValidUpdateQuota compared neither allow-force-update nor is-root
+   ([fields_eq_old]), so the update that only removes the label was admitted UNCHECKED
+   ([update_code_old] = -1), and once it reached the record (the replica's own informer echo) the
+   record was no longer a well-formed tree (clause 14). The repaired comparison includes both
+   labels: the update is validated and refused (check 5), and the history passes the judge. *)
 Definition forced (q : quota) (f : bool) : quota :=
   mkQuota (q_name q) (q_plabel q) (q_is_parent q) (q_tree q) (q_tree_root q) f (q_sw q)
           (q_ns_bad q) (q_ns q) (q_strict_bad q) (q_strict q) (q_used q) (q_min q) (q_max q) (q_guar q).
@@ -100,12 +100,36 @@ Definition K6 := exq 5 3 false 6 6 20 20.
 Definition h_flag : list event :=
   [EReq ([], Add A); EReq ([], Add Bp); EReq ([], Add (forced K6 true)); EInf ([], Add (forced K6 true));
    EReq ([], Update (forced K6 true) K6); EInf ([], Update (forced K6 true) K6)].
-Lemma ex_flag_drop :
-  map fst (etrace (init_topo gg) h_flag) = [1; 1; 1; 1; 1; 1]
-  /\ forallb flag_stable_ev h_flag = false
-  /\ classes (init_judge gg) h_flag = [CEcho; CRefresh]
-  /\ eprop_code gg h_flag (etrace (init_topo gg) h_flag) = 14.
+
+Definition fields_eq_old (o n : quota) : bool :=
+  (q_plabel o =? q_plabel n) && Bool.eqb (q_is_parent o) (q_is_parent n)
+  && (q_tree o =? q_tree n)
+  && (if q_ns_bad o then q_ns_bad n else negb (q_ns_bad n) && eq_listZ (q_ns o) (q_ns n))
+  && eq_res (q_min o) (q_min n) && eq_res (q_max o) (q_max n).
+Definition update_code_old (s : topo) (pods : list pod) (o n : quota) : Z :=
+  if fields_eq_old o n then -1 else update_code s pods o n.
+
+Lemma ex_flag_drop_old :
+  let s := erun gg (firstn 4 h_flag) in
+  update_code_old s [] (forced K6 true) K6 = -1
+  /\ on_update s (forced K6 true) K6 = (fst (on_update s (forced K6 true) K6), false)
+  /\ wf_code s = 0
+  /\ wf_code (fst (on_update s (forced K6 true) K6)) = 14.
 Proof. vm_compute. repeat split; reflexivity. Qed.
+
+Lemma ex_flag_drop_repaired :
+  code (erun gg (firstn 4 h_flag)) ([], Update (forced K6 true) K6) = 5
+  /\ map fst (etrace (init_topo gg) h_flag) = [1; 1; 1; 1; 0; 1]
+  /\ classes (init_judge gg) h_flag = [CEcho; COut]
+  /\ eprop_code gg h_flag (etrace (init_topo gg) (firstn 5 h_flag) ++ [(1, erun gg h_flag)]) = 0.
+Proof. vm_compute. repeat split; reflexivity. Qed.
+(* the judge names the old behaviour when it is observed: the label removal admitted (outcome 1,
+   record unchanged), then its echo refreshing the record — clause 14 *)
+Definition tr_flag_old : list (Z * topo) :=
+  let s := erun gg (firstn 4 h_flag) in
+  etrace (init_topo gg) (firstn 4 h_flag) ++ [(1, s); (1, fst (on_update s (forced K6 true) K6))].
+Lemma ex_flag_drop_judged_14 : eprop_code gg h_flag tr_flag_old = 14.
+Proof. vm_compute. reflexivity. Qed.
 (* without the label the same child is refused *)
 Lemma ex_flag_needed : code (erun gg (firstn 2 h_flag)) ([], Add K6) = 4.
 Proof. vm_compute. reflexivity. Qed.
